@@ -40,6 +40,8 @@ ASSUMPTIONS = [
     "a case running longer than the per-case alarm (quick 30 s, thorough 180 s) is discarded and counted, termination is C13's subject",
 ]
 
+MAX_REPORTED = 10
+
 MARKER_RE = re.compile(r"(?<![0-9])9[0-9]{4}(?![0-9])")
 
 
@@ -166,6 +168,10 @@ def _crash_discrepancy(data, lang, exc):
     s = W.crash_signature(lang, exc)
     if s[-1] == "?":
         return None
+    if ":" in s[3] or (s[3] == "TypeError" and str(exc).startswith("descriptor 'append' for 'list' objects")):
+        # decided by the code alone (a method that does not exist, the class `list` passed as a list): one
+        # root cause whatever the input looks like
+        return s, "%s: %s" % (lang, W.crash_text(exc))
     if syntactically_valid(data, lang):
         return s, "%s (input has no syntax error): %s" % (lang, W.crash_text(exc))
     s = (s[0], "crash-broken-input") + tuple(s[2:])
@@ -255,12 +261,15 @@ def check_threaded(units, timeout=30):
     intervals = []
     all_ids = {}
     for (lang, fname, data), mid in zip(units, module_ids):
+        fname = os.path.basename(fname)
         r = lower_one(data, lang, start_id=start, module_id=mid, fname=fname, timeout=timeout)
         info["outcomes"].append(r["outcome"])
         if r["outcome"] == "crash":
             d = _crash_discrepancy(data, lang, r["exc"])
             if d is not None:
                 ds.append(d)
+            else:
+                info["harness_error"] = "exception without a lian frame: %r" % (r["exc"],)
             return ds, info       # LangAnalysis.run would have died here
         if r["outcome"] in ("rejected", "timeout"):
             return ds, info
@@ -483,17 +492,24 @@ def _record(col, ds, info, case, nontrivial_key=None):
 # step-overs: template groups the generator leaves out while a finding is open
 
 STEPOVER_GROUPS = {
-    # group name -> signature pattern that, while OPEN in known findings, switches the group off
-    "ts-field-write": (ID, "crash", "typescript", "AttributeError", "assignment_expression"),
-    "php-namespace": (ID, "struct", "php", "4:executable-statement-outside-any-method", "namespace_decl"),
+    # template group (c03_gen.GROUPS) -> signatures; while ANY of them is an OPEN known finding the group is left out
+    "ts-field-or-index-write": [(ID, "crash", "typescript", "AttributeError:Parser.parse_field", "assignment_expression"),
+                                (ID, "crash", "typescript", "AttributeError:Parser.parse_array", "assignment_expression")],
+    "ts-destructuring-with-key": [(ID, "crash", "typescript", "AttributeError:Parser.property_name", "assignment_expression"),
+                                  (ID, "crash", "typescript", "AttributeError:Parser.property_name", "variable_declaration")],
+    "ts-abstract-class": [(ID, "crash", "typescript", "KeyError", "class_declaration")],
+    "ts-new-without-arguments": [(ID, "crash", "typescript", "AttributeError", "new_expression")],
+    "ts-catch-without-binding": [(ID, "crash", "typescript", "AttributeError", "parse_catch_clause")],
+    "ts-as-const": [(ID, "crash", "typescript", "IndexError", "as_expression")],
+    "c-enum-value-expression": [(ID, "crash", "c", "TypeError", "enum_body")],
+    "php-namespace": [(ID, "struct", "php", "4:executable-statement-outside-any-method", "namespace_decl")],
 }
 
 
 def active_stepovers():
     out = []
-    for name, s in sorted(STEPOVER_GROUPS.items()):
-        kind, _ = common.classify(ID, s)
-        if kind == "known":
+    for name, sigs in sorted(STEPOVER_GROUPS.items()):
+        if any(common.classify(ID, s)[0] == "known" for s in sigs):
             out.append(name)
     return out
 
@@ -656,10 +672,12 @@ def multi_shard(arg):
         units = _draw_units(data.draw, st, corp, avoid, light)
         case = multi_case(kind, units)
         if kind == "threaded":
-            ds, info = check_threaded([(l, os.path.basename(nm), d) for l, nm, d in units], timeout=timeout)
+            ds, info = check_threaded(units, timeout=timeout)
         else:
             ds, info = check_project(units, timeout=timeout * 4)
         col.case()
+        if info.get("harness_error"):
+            col.error(info["harness_error"])
         col.label("%s:units=%d" % (kind, len(units)))
         col.label("%s:units_with_gir=%d" % (kind, info.get("units_with_gir", 0)))
         if len(set(l for l, _, _ in units)) > 1:
@@ -674,6 +692,60 @@ def multi_shard(arg):
             col.sample({"kind": kind, "units": [(l, nm, len(d)) for l, nm, d in units], "units_with_gir": info.get("units_with_gir")})
 
     prop()
+    return col
+
+
+def atheris_shard(arg):
+    """Thorough tier: one coverage-guided libFuzzer campaign (harness/c03_atheris.py, own process) on one
+    frontend, bounded by -runs.  Every bucket it reports is re-run here, uninstrumented, before it counts."""
+    import json
+    import shutil
+    import subprocess
+    import tempfile
+    lang, seed, runs, tier = arg
+    col = Collector()
+    scratch = tempfile.mkdtemp(prefix="lianverif-atheris-")
+    out = os.path.join(scratch, "out.json")
+    env = dict(os.environ)
+    env.update(C03_ATHERIS_SCRATCH=scratch, PYTHONHASHSEED="0", LIAN_REPO=common.REPO)
+    script = os.path.join(os.path.dirname(os.path.dirname(os.path.abspath(__file__))), "c03_atheris.py")
+    try:
+        try:
+            p = subprocess.run([common.PY, script, lang, out, str(seed & 0x7FFFFFFF), str(runs)], env=env,
+                               stdout=subprocess.DEVNULL, stderr=subprocess.PIPE, timeout=7200)
+            rc, err = p.returncode, p.stderr.decode("utf-8", "replace")[-600:]
+        except subprocess.TimeoutExpired:
+            rc, err = -1, "timeout of the campaign process"
+        state = None
+        if os.path.exists(out):
+            with open(out) as f:
+                state = json.load(f)
+        if state is None:
+            col.notes.append("atheris %s: no result file (rc=%s) %s" % (lang, rc, err[-300:]))
+            col.extra["atheris:campaigns without result"] += 1
+            return col
+        if str(state.get("status", "")).startswith("atheris unavailable"):
+            col.notes.append("atheris could not be imported (%s): the thorough tier fell back to the Hypothesis mutator only" % state["status"])
+            col.extra["atheris:unavailable"] += 1
+            return col
+        if state.get("status") != "finished":
+            col.notes.append("atheris %s: campaign ended early after %d of %d runs (rc=%s) %s" % (lang, state.get("execs", 0), runs, rc, err[-200:]))
+        col.evaluations += int(state.get("execs", 0))
+        col.extra["atheris:%s:runs" % lang] += int(state.get("execs", 0))
+        col.extra["atheris:%s:distinct inputs with GIR or exception" % lang] += int(state.get("nontrivial", 0))
+        for o, n in (state.get("outcomes") or {}).items():
+            col.labels["atheris:%s:outcome:%s" % (lang, o)] += n
+        for k, b in sorted((state.get("buckets") or {}).items()):
+            case = b["examples"][0]
+            ds, info = run_case(case, timeout=180)
+            sigs = [tuple(s_) for s_, _ in ds]
+            if tuple(json.loads(k)) not in sigs:
+                col.notes.append("atheris %s: bucket %s did not reproduce uninstrumented (got %s)" % (lang, k, sigs[:2]))
+            for s_, w in ds:
+                col.discrepancy(s_, w, case)
+                col.buckets[tuple(s_)]["count"] += max(0, int(b.get("count", 1)) - 1)
+    finally:
+        shutil.rmtree(scratch, ignore_errors=True)
     return col
 
 
@@ -777,23 +849,33 @@ def main(tier, seed, t0):
     pshards = 4 if quick else ncpu
     for k in range(pshards):
         args.append((multi_shard, ("project", common.shard_seed(seed, 6000 + k), n_prj // pshards + 1, tier)))
+    if not quick and not os.environ.get("C03_NO_ATHERIS"):
+        for i, lang in enumerate(G.LANGS):
+            args.append((atheris_shard, (lang, common.shard_seed(seed, 7000 + i), 60000, tier)))
     # long shards first
-    order = {multi_shard: 0, mut_shard: 1, corpus_shard: 2, gen_shard: 3}
+    order = {atheris_shard: -1, multi_shard: 0, mut_shard: 1, corpus_shard: 2, gen_shard: 3}
     args.sort(key=lambda fa: order[fa[0]])
     col.merge(common.run_shards(_dispatch, [(fn.__name__, a) for fn, a in args]))
 
-    # shrink the smallest example of every unlisted bucket so that the replay file is readable
-    for sig, b in list(col.buckets.items()):
-        kind, _ = common.classify(ID, sig)
-        if kind == "new" and b["examples"]:
-            try:
-                b["examples"] = [shrink_case(b["examples"][0], sig)]
-            except Exception as e:       # shrinking is best effort
-                col.notes.append("shrink failed for %s: %r" % (list(sig), e))
+    # shrink the smallest example of every unlisted bucket so that the replay file is readable.  When a change
+    # breaks (almost) everything there are hundreds of unlisted buckets: report the MAX_REPORTED with the smallest
+    # examples (each is shrunk and re-confirmed in a fresh process) and list the others in the evidence notes.
+    new_sigs = sorted((s_ for s_ in col.buckets if common.classify(ID, s_)[0] == "new"),
+                      key=lambda s_: (common.jsize(col.buckets[s_]["examples"][0]), str(s_)))
+    for s_ in new_sigs[MAX_REPORTED:]:
+        b = col.buckets.pop(s_)
+        col.notes.append("unlisted signature not reported separately (more than %d): %s count=%d %s" % (MAX_REPORTED, list(s_), b["count"], b["what"][:120]))
+    for sig in new_sigs[:MAX_REPORTED]:
+        b = col.buckets[sig]
+        try:
+            b["examples"] = [shrink_case(b["examples"][0], sig, budget=120)]
+        except Exception as e:       # shrinking is best effort
+            col.notes.append("shrink failed for %s: %r" % (list(sig), e))
     extra = {"step_over_groups_active": active_stepovers(),
              "languages": G.LANGS,
              "corpus_files": {l: len(corp[l]) for l in G.LANGS},
-             "atheris": os.environ.get("C03_ATHERIS_NOTE", "not part of this run (see c03_atheris.py)")}
+             "atheris": ("7 campaigns x 60000 runs (harness/c03_atheris.py); see counters atheris:*" if not quick and not os.environ.get("C03_NO_ATHERIS")
+                         else "thorough tier only")}
     return common.finish(ID, tier, seed, col, t0, RULE, ASSUMPTIONS, extra_coverage=extra)
 
 
